@@ -217,6 +217,13 @@ func Main() {
 		c := registry[os.Args[2]]
 		seed, _ := strconv.ParseInt(os.Args[4], 10, 64)
 		worker(c, os.Args[3], seed)
+	case "case": // vcheck case <ID> <tier> <seed> <index>: run one case in this process and print its result
+		c := registry[os.Args[2]]
+		seed, _ := strconv.ParseInt(os.Args[4], 10, 64)
+		idx, _ := strconv.Atoi(os.Args[5])
+		r := c.RunCase(os.Args[3], seed, idx)
+		b, _ := json.MarshalIndent(r, "", " ")
+		fmt.Println(string(b))
 	case "replay":
 		c := registry[os.Args[2]]
 		os.Exit(replay(c, os.Args[3]))
@@ -241,7 +248,9 @@ func Main() {
 
 func worker(c *Check, tier string, seed int64) {
 	in := bufio.NewScanner(os.Stdin)
-	out := bufio.NewWriter(os.Stdout)
+	// results travel on fd 3; anything the code under test prints to stdout goes to the log
+	out := bufio.NewWriter(os.NewFile(3, "results"))
+	os.Stdout = os.Stderr
 	for in.Scan() {
 		idx, err := strconv.Atoi(strings.TrimSpace(in.Text()))
 		if err != nil {
@@ -461,6 +470,13 @@ func coordinate(c *Check, tier string) int {
 		"workers":             nw,
 	}
 	if len(inconc) > 0 {
+		var ids []int
+		for i, r := range inconc {
+			if i < 10 {
+				ids = append(ids, r.Case)
+			}
+		}
+		cov["inconclusive_case_ids"] = ids
 		cov["inconclusive_example"] = oneLine(inconc[0].Detail, 400)
 	}
 	if len(notes) > 0 {
@@ -521,13 +537,22 @@ func runWorker(c *Check, tier string, seed int64, w int, logdir string, jobs <-c
 		}
 		cmd.Stderr = ef
 		inp, _ := cmd.StdinPipe()
-		outp, _ := cmd.StdoutPipe()
-		cmd.Env = append(os.Environ(), "VERIF_WORKER="+strconv.Itoa(w))
-		if err := cmd.Start(); err != nil {
+		outp, outw, err := os.Pipe()
+		if err != nil {
 			ef.Close()
 			return nil, err
 		}
-		return &proc{cmd: cmd, stdin: bufio.NewWriter(inp), stdout: bufio.NewReaderSize(outp, 1<<20), errf: errf, closer: func() { inp.Close(); ef.Close() }}, nil
+		cmd.Stdout = ef
+		cmd.ExtraFiles = []*os.File{outw}
+		cmd.Env = append(os.Environ(), "VERIF_WORKER="+strconv.Itoa(w))
+		if err := cmd.Start(); err != nil {
+			ef.Close()
+			outw.Close()
+			outp.Close()
+			return nil, err
+		}
+		outw.Close()
+		return &proc{cmd: cmd, stdin: bufio.NewWriter(inp), stdout: bufio.NewReaderSize(outp, 1<<20), errf: errf, closer: func() { inp.Close(); ef.Close(); outp.Close() }}, nil
 	}
 	var p *proc
 	stop := func() {
